@@ -56,10 +56,15 @@ def check_identity(sh, doc, db, suite, case):
         A = doc.tables[ti]
         ck(T.database is db, 'table.database', f'{A.full}.database is not the db')
         ck(T.note is not None and T.note.parent is T, 'table.note.parent', f'{A.full}.note.parent')
-        ck(db[A.full] is T, 'lookup.fullname', f'db[{A.full!r}] is not the table')
-        ck(db[tix.index(ti)] is T, 'lookup.index', f'db[{tix.index(ti)}]')
+        def lk(key_):
+            try:
+                return db[key_]
+            except Exception as e_:  # noqa   (a failing lookup is a failed assertion, not a harness error)
+                return e_
+        ck(lk(A.full) is T, 'lookup.fullname', f'db[{A.full!r}] is not the table')
+        ck(lk(tix.index(ti)) is T, 'lookup.index', f'db[{tix.index(ti)}]')
         if A.alias:
-            ck(db[A.alias] is T, 'lookup.alias', f'db[{A.alias!r}] is not {A.full}')
+            ck(lk(A.alias) is T, 'lookup.alias', f'db[{A.alias!r}] is not {A.full}')
         ck(len(T.columns) == len(A.columns), 'table.columns.len', A.full)
         for c, a in zip(T.columns, A.columns):
             ck(c.table is T, 'column.table', f'{A.full}.{a.name}.table')
